@@ -526,6 +526,97 @@ def r6_total_operations(chk: Check) -> None:
         chk.undecided("C16.R6", "<discovery>", f"sites={n}", "fewer decode/parse sites than confirmed by hand")
 
 
+# --------------------------------------------------------------------------------------------- R8 faithful header-derived fields
+def r8_header_fields(chk: Check) -> None:
+    chk.rule("C16.R8", "KEY-DOMAIN / ALL-VALUES(recorded headers in the report writers): recorded response headers are stored under lower-cased names, so a lookup with a mixed-case literal never matches; a header maps to a LIST of values, so every value is written (not `values[0]`), and a list of header strings is iterated by element, never by character", floor=6)
+    P = chk.project
+    tr = P.module("core/transport.py")
+    lowered = False
+    for cls in tr.classes.values():
+        if cls.name != "Response":
+            continue
+        for n_, b in pfind("self.headers = $X", cls.node):
+            x = b["X"]
+            if isinstance(x, ast.DictComp) and isinstance(x.key, ast.Call) and last_attr(x.key) == "lower":
+                lowered = True
+    chk.note(f"C16.R8: recorded Response.headers keys are {'lower-cased' if lowered else 'stored as received'}")
+    mod = P.module(CAS)
+    n = 0
+    for fn in mod.functions.values():
+        if isinstance(fn.node, ast.Lambda):
+            continue
+        # (a) key domain
+        for node in walk_body(fn.node):
+            lit = recv = None
+            if isinstance(node, ast.Call) and isinstance(node.func, ast.Attribute) and node.func.attr in ("get", "pop") and node.args and isinstance(node.args[0], ast.Constant) and isinstance(node.args[0].value, str):
+                lit, recv = node.args[0].value, node.func.value
+            elif isinstance(node, ast.Subscript) and isinstance(node.slice, ast.Constant) and isinstance(node.slice.value, str):
+                lit, recv = node.slice.value, node.value
+            elif isinstance(node, ast.Compare) and len(node.ops) == 1 and isinstance(node.ops[0], (ast.In, ast.NotIn)) and isinstance(node.left, ast.Constant) and isinstance(node.left.value, str):
+                lit, recv = node.left.value, node.comparators[0]
+            if lit is None or recv is None:
+                continue
+            if isinstance(recv, ast.Name):
+                # flow-sensitive: the definitions of the local that reach this lookup
+                from ..dataflow import propagate
+
+                g = cfg_of(fn)
+                states = propagate(g, recv.id, [g.entry], ["<param>"], lambda v: unparse(v, 200))
+                texts = set()
+                for nid in g.stmt_nodes_containing(node):
+                    texts |= states.get(nid, set())
+            else:
+                texts = {unparse(recv, 200)}
+            if not any(t.endswith("response.headers") or t.endswith("response.headers)") for t in texts):
+                continue
+            n += 1
+            construct = f"lookup of {lit!r} in the recorded response headers"
+            if lowered and lit != lit.lower():
+                chk.violation("C16.R8", fn, construct, f"recorded response headers are keyed by lower-cased names (core/transport.py Response.__init__), so `{lit}` never matches: the field derived from it (mimeType / redirectURL / cookies) is always empty although the header was received", fn.loc(node))
+            else:
+                chk.ok("C16.R8", fn, construct, "", fn.loc(node))
+        # lookups through a case-insensitive helper of this module (`_find_header(headers, "Content-Type")`)
+        for c in body_calls(fn):
+            if isinstance(c.func, ast.Name) and len(c.args) >= 2 and isinstance(c.args[1], ast.Constant) and isinstance(c.args[1].value, str):
+                callee = mod.functions.get(f"{CAS}:{c.func.id}") or next((f_ for f_ in mod.functions.values() if f_.name == c.func.id and f_.parent is None), None)
+                if callee is not None and sum(1 for x in body_calls(callee) if last_attr(x) == "lower") >= 2:
+                    n += 1
+                    chk.ok("C16.R8", fn, f"lookup of {c.args[1].value!r} through {c.func.id}", "case-insensitive helper (both sides lower-cased)", fn.loc(c))
+        # (b) every value of a header is written
+        for comp in walk_body(fn.node):
+            if not isinstance(comp, (ast.ListComp, ast.GeneratorExp)):
+                continue
+            g0 = comp.generators[0]
+            m = pmatch("$h.items()", g0.iter)
+            if m is None or not (isinstance(g0.target, ast.Tuple) and len(g0.target.elts) == 2 and isinstance(g0.target.elts[1], ast.Name)):
+                continue
+            if not any("headers" in t for t in canon(fn, m["h"])) and "headers" not in unparse(m["h"]):
+                continue
+            vals = g0.target.elts[1].id
+            first_only = [x for x in ast.walk(comp.elt) if isinstance(x, ast.Subscript) and isinstance(x.value, ast.Name) and x.value.id == vals and isinstance(x.slice, ast.Constant) and x.slice.value == 0]
+            n += 1
+            construct = f"header records built from every value ({unparse(comp.elt, 50)})"
+            if first_only and not any(isinstance(g_.iter, ast.Name) and g_.iter.id == vals for g_ in comp.generators[1:]):
+                chk.violation("C16.R8", fn, construct, f"only `{vals}[0]` is written: a header that occurs twice (two `Set-Cookie` / `Link` lines) loses every value after the first in the report", fn.loc(comp))
+            else:
+                chk.ok("C16.R8", fn, construct, "", fn.loc(comp))
+        # (c) a list[str] parameter is iterated by element; iterating the ELEMENT again walks over characters
+        if not isinstance(fn.node, ast.Lambda):
+            a_ = fn.node.args
+            strlists = {arg.arg for arg in [*a_.posonlyargs, *a_.args, *a_.kwonlyargs] if arg.annotation is not None and unparse(arg.annotation).strip("'\"") in ("list[str]", "List[str]", "Sequence[str]", "Iterable[str]")}
+            for comp in walk_body(fn.node):
+                gens = comp.generators if isinstance(comp, (ast.ListComp, ast.GeneratorExp, ast.SetComp, ast.DictComp)) else []
+                elems: set[str] = set()
+                for g_ in gens:
+                    if isinstance(g_.iter, ast.Name) and g_.iter.id in strlists and isinstance(g_.target, ast.Name):
+                        elems.add(g_.target.id)
+                    elif isinstance(g_.iter, ast.Name) and g_.iter.id in elems:
+                        n += 1
+                        chk.violation("C16.R8", fn, f"`for ... in {g_.iter.id}` walks over the characters of one header string", f"`{g_.iter.id}` is an element of a `list[str]` parameter, i.e. one header value; iterating it yields single characters, so nothing derived from it (cookies) is ever extracted", fn.loc(comp))
+    if n < 6:
+        chk.undecided("C16.R8", "<discovery>", f"sites={n}", "fewer header lookups / header record builders than confirmed by hand")
+
+
 # --------------------------------------------------------------------------------------------- R7 handlers never abort
 def r7_handlers(chk: Check) -> None:
     chk.rule("C16.R7", "report handlers are started/shut down for every run and a handler exception is displayed and re-raised (never swallowed into a truncated report)", floor=3)
@@ -568,4 +659,4 @@ def r7_handlers(chk: Check) -> None:
 
 
 def rules(tier: str) -> list:  # type: ignore[type-arg]
-    return [r1_yaml_flow, r1c_line_protocol, r2_conditional_writer, r3_structured_writers, r6_total_operations, r7_handlers]
+    return [r1_yaml_flow, r1c_line_protocol, r2_conditional_writer, r3_structured_writers, r6_total_operations, r7_handlers, r8_header_fields]
